@@ -131,6 +131,13 @@ KNOWN_PROGRAMS = {
     "def noisy():\n    print('annotation evaluated')\n    return int\ndef annotated(x: noisy()) -> noisy():\n    return x\nprint(annotated(1))": 'annotation-with-side-effect-removed',
     "value='global value'\ndef outer():\n    value='function value'\n    class Inner:\n        seen=value\n        value='class value'\n    return Inner.seen\nprint(outer())": 'class-body-name-read-and-assigned',
 }
+# control flow: an early return inside every kind of nested suite, observable through what runs afterwards
+PROGRAMS += [
+    "log=[]\ndef handle(item):\n    try:\n        value=int(item)\n        if value<0:\n            log.append('negative')\n            return\n    except ValueError:\n        log.append('not a number')\n        return None\n    else:\n        log.append('accepted')\n    finally:\n        log.append('done')\nfor item in ('1','-1','x'):\n    handle(item)\nprint(log)",
+    "log=[]\ndef search(items, wanted):\n    for item in items:\n        if item==wanted:\n            log.append('found')\n            return\n    else:\n        log.append('missing')\n        return None\ndef countdown(n):\n    while n:\n        n-=1\n        if n==2:\n            log.append('two')\n            return\n    else:\n        log.append('zero')\nsearch([1,2],2);search([1],3);countdown(5);countdown(1)\nprint(log)",
+    "import contextlib\nlog=[]\n@contextlib.contextmanager\ndef manager():\n    log.append('enter')\n    yield\n    log.append('exit')\ndef managed(flag):\n    with manager():\n        if flag:\n            log.append('early')\n            return None\n        log.append('late')\n    log.append('after')\n    return\nmanaged(True);managed(False)\nprint(log)",
+    "log=[]\ndef classify(value):\n    match value:\n        case int():\n            log.append('int')\n            return\n        case _:\n            log.append('other')\n    log.append('fallthrough')\nclassify(1);classify('s')\nprint(log)",
+]
 PROGRAMS += list(KNOWN_PROGRAMS)
 # fixed in 7a1a7a4: a regression is an ordinary violation
 PROGRAMS.append("def collect(a, /, **kw):\n    return a, sorted(kw.items())\nprint(collect(1, a=2))")
